@@ -138,6 +138,18 @@ def gens_driver(chk, gens257, counts, n_parse, v1="std"):
     return chk.record(recs, v1)
 
 
+def replay(chk, path):
+    """bin/check C19 --replay FILE: re-execute the records of a violation file on the named build and let TLC decide them again"""
+    recs = vlib.read_ndjson(path)
+    variant = recs[0].get("variant", "std") if recs and recs[0].get("e") == "Build" else "std"
+    recs = [r for r in recs if r.get("e") != "Build"]
+    chk.groups = ["bppp"]
+    chk.build([variant])
+    ev = chk.record(recs, variant)
+    chk.validate(ev, MODULE, "C19_trace13.cfg" if variant == "tiny13" else "C19_trace.cfg", "replay", variant)
+    return chk.finish(LEVEL, "replay of " + path, [])
+
+
 def run(chk):
     quick = chk.tier == "quick"
     chk.groups = ["bppp"]
@@ -152,11 +164,11 @@ def run(chk):
     gpath = chk.out + "/gens.ndjson"
     vlib.write_ndjson(gpath, g)
     # X: the order-13 test group -- every witness of the (2,1)/(1,2) shapes, every proof string of subgroup points for one statement
-    recs = chk.generate(MODULE, "C19_tiny13.cfg", "tiny13", timeout=2400 if quick else 7200)
+    recs = chk.generate(MODULE, "C19_tiny13.cfg", "tiny13", timeout=6000 if quick else 14000)
     chk.replay(recs, "tiny13", "exhaustive order-13 group")
     chk.exhaustive = True
     # G: generated records
-    recs = chk.generate(MODULE, "C19_gen.cfg", "gen", env={"C19_GENS": gpath}, timeout=2400 if quick else 7200)
+    recs = chk.generate(MODULE, "C19_gen.cfg", "gen", env={"C19_GENS": gpath}, timeout=6000 if quick else 14000)
     for v in (["std", "asan"] if quick else ["std", "asan", "verify", "i64", "noasm"]):
         chk.replay(recs, v, "generated records")
     # T: implementation traces decided by TLC
@@ -166,7 +178,7 @@ def run(chk):
              [(n, 256) for n in range(0, 257)] + [(256, n) for n in range(0, 257, 5)]
     events += gens_driver(chk, gens257, counts, 60 if quick else 600)
     events += gens_driver(chk, gens257, counts[:9], 40, "asan")
-    chk.validate(events, MODULE, "C19_trace.cfg", "driver", timeout=2400 if quick else 7200)
+    chk.validate(events, MODULE, "C19_trace.cfg", "driver", timeout=6000 if quick else 14000)
     return chk.finish(LEVEL,
         "X: order-13 group, every witness (n,l) in Z_13^3 and every proof string of subgroup points/scalar encodings for one statement (invariant: accepted iff the paper's reduction "
         "accepts; honest always accepted); G: TLC enumerates Cases of C19_Bppp.tla (statements by size pair x vector pattern x rho, honest commit/prove/verify triples, 38 kinds of alteration, every "
